@@ -609,11 +609,21 @@ impl Ws {
         if let Some(d) = own.last() {
             return Some(*d);
         }
-        // imports, later statements win; of several `pytest_plugins` assignments only the last counts
+        // import statements bind module attributes: the later statement wins. Modules named in
+        // `pytest_plugins` (only the last assignment counts) are registered as plugins of their own: their
+        // fixtures rank below everything the file itself binds, whatever the order of the statements; of
+        // several such modules the later one wins
         let last_plugins = self.files[file].items.iter().rposition(|it| matches!(it, Item::PytestPlugins { .. }));
         let mut found = None;
+        for pass in 0..2 {
+        if found.is_some() {
+            break;
+        }
         for (idx, it) in self.files[file].items.iter().enumerate() {
-            if matches!(it, Item::PytestPlugins { .. }) && Some(idx) != last_plugins {
+            if matches!(it, Item::PytestPlugins { .. }) && (Some(idx) != last_plugins || pass == 0) {
+                continue;
+            }
+            if !matches!(it, Item::PytestPlugins { .. }) && pass == 1 {
                 continue;
             }
             match it {
@@ -643,6 +653,7 @@ impl Ws {
                 }
                 _ => {}
             }
+        }
         }
         found
     }
